@@ -4,6 +4,7 @@
 pub mod chain;
 pub mod c01;
 pub mod backend;
+pub mod middle;
 
 use crate::json::J;
 use std::collections::{BTreeMap, HashSet};
@@ -132,7 +133,12 @@ impl Acc {
 pub fn run_prop(ctx: &Ctx, acc: &mut Acc) -> Result<(), String> {
     match ctx.prop.as_str() {
         "C01" => c01::run(ctx, acc),
-        "C06" | "C09" | "C10" | "C13" => backend::run(ctx, acc),
+        "C02" => middle::c02(ctx, acc),
+        "C03" => middle::c03(ctx, acc),
+        "C04" => middle::c04(ctx, acc),
+        "C05" => middle::c05(ctx, acc),
+        "C12" => middle::c12(ctx, acc),
+        "C06" | "C07" | "C08" | "C09" | "C10" | "C13" => backend::run(ctx, acc),
         other => return Err(format!("unknown property {other}")),
     }
     Ok(())
@@ -141,7 +147,8 @@ pub fn run_prop(ctx: &Ctx, acc: &mut Acc) -> Result<(), String> {
 pub fn replay_prop(prop: &str, payload: &J, acc: &mut Acc) -> Result<(), String> {
     match prop {
         "C01" => c01::replay(payload, acc),
-        "C06" | "C09" | "C10" | "C13" => backend::replay(prop, payload, acc),
+        "C02" | "C03" | "C04" | "C05" | "C12" => middle::replay(prop, payload, acc),
+        "C06" | "C07" | "C08" | "C09" | "C10" | "C13" => backend::replay(prop, payload, acc),
         other => return Err(format!("unknown property {other}")),
     }
     Ok(())
